@@ -48,7 +48,8 @@ def step(cfg, hist):
         if ok and cfg["rhs"] == "const":
             T = np.asarray(a.t, dtype=LD_); Y = np.asarray(a.y, dtype=LD_)
             want = np.asarray(y0, dtype=LD_)[None, :] + (T - T[0])[:, None] * np.asarray(lc.CONST_SLOPE, dtype=LD_)[None, :]
-            tol = 64 * max(driver.eps_of(dtype), 2.0 ** -52) * (len(T) + 4) * 8 + (1e-5 if lc.family(name).startswith("implicit") else 0)
+            # rounding: the states accumulate c*dt_k while the times accumulate t + dt_k, each rounded at its own magnitude (|y| ~ 1..8, |t| up to 1e6)
+            tol = 64 * max(driver.eps_of(dtype), 2.0 ** -52) * (len(T) + 4) * max(8.0, float(np.max(np.abs(T)))) + (1e-5 if lc.family(name).startswith("implicit") else 0)
             if np.max(np.abs(Y - want)) > tol:
                 k = int(np.argmax(np.max(np.abs(Y - want), axis=1)))
                 r.v("C03/pairing/%s" % name, "each state row belongs to its time row (y' = const is integrated exactly)", dict(case, row=k),
@@ -185,9 +186,41 @@ def run(ctx):
                 cases.append(dict(kind="long", method=m, dtype=dn, t0=0.0, tf=8.0, dt0=2.0 ** -10))
                 cases.append(dict(kind="long", method=m, dtype=dn, t0=4.0, tf=-4.0, dt0=2.0 ** -10))
         grid.pmap(growth_case, cases, ctx, section="growth", horizon=900, chunksize=1)
+    if not ctx.only or "far" in ctx.only:
+        # the lattice of the search is dyadic and sits in |t| <= 2 so that every sum is exact; beside it, the same invariants for steps that are not dyadic
+        # fractions (0.1, 0.3: the recorded end may differ from the target by rounding) and for spans far from the origin of the time axis (where one
+        # unit in the last place of t exceeds any absolute tolerance of a few eps)
+        fcases = []
+        for m in METHODS:
+            for dn in ("float64", "float32") + (() if ctx.quick else ("longdouble",)):
+                offs = (0.0, 1000.0, -1000.0) + ((1.0e6, -1.0e6) if dn != "float32" else ()) if not ctx.quick else ((0.0, -1000.0) if dn == "float32" else (0.0, 1000.0, -1.0e6))
+                for off in offs:
+                    for (a_, b_) in ((0.0, 3.0), (3.0, 0.0)) + (() if ctx.quick else ((-1.0, 2.0), (1.0, -2.0))):
+                        t0, tf = off + a_, off + b_
+                        for dt0 in (0.1, 0.3, 0.25) if off != 0.0 else (0.1, 0.3):
+                            mid = off + 0.5 * (a_ + b_)
+                            for h in ([("int",), ("int",), ("intT", t0)], [("intT", mid), ("intT", mid), ("int",)], [("intT", tf), ("intT", mid)]):
+                                fcases.append(dict(method=m, dtype=dn, rhs="const", t0=t0, tf=tf, dt0=dt0, far_hist=[list(o) for o in h]))
+                                if m in ("RK45CKSolver", "RK4Solver") and dn == "float64" and dt0 == 0.1:
+                                    fcases.append(dict(method=m, dtype=dn, rhs="osc", t0=t0, tf=tf, dt0=dt0, far_hist=[list(o) for o in h]))
+        grid.pmap(far_case, fcases, ctx, section="far", horizon=90)
+
+
+def far_case(case):
+    """a fixed history from a configuration far from the origin of the time axis and/or with a step that is not a dyadic fraction: every prefix is judged"""
+    cfg = {k: v for k, v in case.items() if k not in ("far_hist",)}
+    hist = tuple(tuple(o) for o in case["far_hist"])
+    r = Res()
+    for n in range(1, len(hist) + 1):
+        x = step(cfg, hist[:n])
+        x.ret = None
+        r.merge(x)
+    return r
 
 
 def replay(case):
+    if "far_hist" in case:
+        return far_case(case)
     if "kind" in case:
         return growth_case(case)
     cfg = {k: v for k, v in case.items() if k not in ("hist", "row", "_depth")}
